@@ -480,6 +480,7 @@ class Case:
         self.main = None        # the profile whose output is judged
         self.timeout = False
         self.expected = None    # per row list of expected bits (None = unclaimed)
+        self.exact = None       # per row (exact python value, k) of the oracle for bool / Qint returns, else None
 
 
 def observe(lib, tag, src, profiles=("fast", "default"), budget=15):
@@ -556,6 +557,7 @@ def judge(c, quirks=()):
     prog = c.prog
     n = len(prog.argbits)
     c.failing, c.expected = [], []
+    c.exact = []
     for k in range(2 ** n):
         row = [bool((k >> i) & 1) for i in range(n)]
         try:
@@ -575,6 +577,7 @@ def judge(c, quirks=()):
             if e_ is not None and e_ != w_:
                 raise RuntimeError(f"oracle inconsistency (Sem vs SemW) on {c.src!r} row {k}")
         c.expected.append(exp)
+        c.exact.append((int(v.ex), v.k) if v.items is None and v.ty[0] in ("bool", "qint") else None)
         got = c.rows[k]
         if len(got) != len(exp):
             c.violations.append(("number of return bits", dict(code=len(got), expected=len(exp))))
@@ -752,6 +755,39 @@ def check_semw(res, c, sem, m, aq, stats):
                              "Lean SemW differs from the python oracle (harness/pysem.py) on a claimed bit",
                              model=got, expected="".join("?" if e_ is None else ("1" if e_ else "0") for e_ in exp),
                              wrong_bits=bad)
+                return
+    # (a') the Lean exact semantics `Sem` / `inRange` (lean/QV/Model/SemX.lean, theorems semW_eq_sem /
+    # semW_low_bits / C01_straightline) against pysem's Sem: python value, number of claimed low bits,
+    # the claimed bits themselves and the in-range flag, on every row where both give a meaning
+    for k_ in ("sem_rows", "sem_inrange_rows", "sem_lowbit_rows", "sem_rows_undefined"):
+        stats.setdefault(k_, 0)
+    exact = sem.get("exact")
+    if exact is None:
+        res.disagree(case_json(c), "Lean Sem: the driver reply has no 'exact' rows", model=sorted(sem))
+        return
+    if c.expected is not None and c.oracle == "ok" and c.exact is not None and len(c.exact) == len(exact) \
+            and len(c.expected) == len(exact):
+        for k, (py, lean, exp) in enumerate(zip(c.exact, exact, c.expected)):
+            if lean is None or py is None:
+                stats["sem_rows_undefined"] += 1
+                continue
+            stats["sem_rows"] += 1
+            lx, lk, lclaim, linr = lean
+            pclaim = "".join("?" if e_ is None else ("1" if e_ else "0") for e_ in exp)
+            if linr:
+                stats["sem_inrange_rows"] += 1
+            elif lk:
+                stats["sem_lowbit_rows"] += 1
+            if (lx, lk, lclaim, linr) != (py[0], py[1], pclaim, py[1] is None):
+                res.disagree(case_json(c, row=k, args=row_values(c.prog, k)),
+                             "Lean Sem / inRange differs from the python oracle (value, claimed low bits, claim, in-range flag)",
+                             model=[lx, lk, lclaim, linr], expected=[py[0], py[1], pclaim, py[1] is None])
+                return
+            # the theorem semW_eq_sem / semW_low_bits observed: every claimed bit is SemW's bit
+            got = rows[k]
+            if got is not None and any(ch != "?" and ch != g for ch, g in zip(lclaim, got)):
+                res.disagree(case_json(c, row=k), "Lean SemW differs from Lean Sem on a claimed bit "
+                             "(the statement of semW_low_bits fails on this input)", semw=got, sem=lclaim)
                 return
     # (b) against the Lean translator (only when no quirk site was reached: the table is then that of Quirks.none)
     if m is not None and "error" not in m and "driver_error" not in m and m.get("table") is not None:
